@@ -1951,6 +1951,8 @@ func translate(repo string, p *pkgFiles, outPath string) {
 		{fn: "Validate", recv: "IdpAuthnRequest", mutRecv: true, anchor: "mustHaveDestination :="},
 		{fn: "ValidateLogoutResponseForm", recv: "ServiceProvider", as: "logoutFormTail", anchor: "if err := sp.validateSignature(doc.Root()); err != nil {"},
 		{fn: "ValidateLogoutResponseRedirect", recv: "ServiceProvider", as: "logoutRedirectTail", anchor: "if err := sp.validateSignature(doc.Root()); err != nil {"},
+		{fn: "GetSSOBindingLocation", recv: "ServiceProvider"},
+		{fn: "GetSLOBindingLocation", recv: "ServiceProvider"},
 		{fn: "ServeIDPInitiated", recv: "IdentityProvider", as: "idpInitiatedGate", state: "req", trace: true,
 			anchor: "session := idp.SessionProvider.GetSession(w, r, req)", until: "for _, spssoDescriptor := range req.ServiceProviderMetadata.SPSSODescriptors"},
 		{fn: "ServeSSO", recv: "IdentityProvider", as: "serveSSOGate", trace: true, until: "assertionMaker := idp.AssertionMaker"},
